@@ -238,6 +238,7 @@ def rule_k6(chk: Check, F, ix: Index, thorough: bool):
         raise AnalysisError("line loop of _tokenize not found")
     dispatch = [st for st in outer[0].body if isinstance(st, ast.If)]
     leaks = []
+    stale: list = []
     if dispatch:
         try:
             for pth in stmt_paths([dispatch[0]]):
@@ -256,6 +257,11 @@ def rule_k6(chk: Check, F, ix: Index, thorough: bool):
                 # ... or it is cleared here
                 if not off and "state.continued = False" not in effects:
                     leaks.append([x[1:] for x in pth if x[0] == "cond"])
+                # a test of the flag after it was cleared on the same path always reads False
+                seq = [x for x in pth if x[0] in ("do", "cond")]
+                cleared = next((i for i, x in enumerate(seq) if x[0] == "do" and x[1] == "state.continued = False"), None)
+                if cleared is not None and any(x[0] == "cond" and "state.continued" in x[1] for x in seq[cleared + 1:]):
+                    stale.append([x[1] for x in seq[cleared + 1:] if x[0] == "cond" and "state.continued" in x[1]][0])
         except AnalysisError as e:
             leaks.append(f"dispatch not analysable: {e}")
     else:
@@ -263,9 +269,22 @@ def rule_k6(chk: Check, F, ix: Index, thorough: bool):
     chk.require(not leaks, "K6-continuation", "_tokenize:continued-flag-consumed", tk.where,
                 f"a continued line can be scanned without clearing `state.continued` (path {leaks[:1]}): the flag leaks into the next "
                 f"logical line, whose indentation is then ignored (`x = (1 + \\⏎ 2)⏎    y = 3` is accepted)")
+    chk.count("K6-continuation")
+    chk.require(not stale, "K6-continuation", "_tokenize:flag-read-after-clear", tk.where,
+                f"`{stale[0] if stale else ''}` is evaluated after `state.continued = False` on the same path, so the flag always reads False "
+                f"there: input that ends right after a backslash continuation is no longer refused and its last logical line gets no NEWLINE")
     sp = F.need("SearchPath")
     an = rx.Analysis({"sp": sp}, exhaustive=thorough)
     pf = an.witness_not_prefix_free("sp")
+    # a backslash escapes the next character, a backtick included: no match may end at an escaped backtick
+    chk.count("K6-continuation")
+    try:
+        an2 = rx.Analysis({"sp": sp, "esc": r"(?:[^\\]|\\(?:.|\n))*\\`"}, exhaustive=False)
+        w = an2.witness_intersection(["sp", "esc"])
+    except rx.Unsupported as e:
+        raise AnalysisError(f"SearchPath escape rule: {e}")
+    chk.require(w is None, "K6-continuation", "SearchPath:escaped-backtick", repo.TOKENIZE,
+                f"the search-path pattern matches {w!r}, ending at a backtick that is escaped by a backslash: `a\\`b` is cut in two")
     chk.count("K6-continuation")
     chk.require(pf is None, "K6-continuation", "SearchPath:unique-end", repo.TOKENIZE,
                 f"the search-path pattern can end at two places ({pf}): an escaped backtick inside the path ends the token early")
@@ -279,44 +298,77 @@ def rule_k4(chk: Check, F, ix: Index):
     loop = next((n for n in own_nodes(f.node) if isinstance(n, ast.While) and "state.pos < state.max" in norm_stmt(n.test)), None)
     if loop is None:
         raise AnalysisError("indentation measuring loop not found")
-    updates: dict[str, ast.stmt] = {}
-    cur = loop.body[0] if isinstance(loop.body[0], ast.If) else None
-    while cur is not None:
-        t = cur.test
-        ch = None
-        if isinstance(t, ast.Compare) and isinstance(t.comparators[0], ast.Constant):
-            ch = t.comparators[0].value
-        if ch is not None and len(cur.body) == 1:
-            updates[ch] = cur.body[0]
-        cur = cur.orelse[0] if len(cur.orelse) == 1 and isinstance(cur.orelse[0], ast.If) else None
+    # one iteration of the measuring loop as a path set, evaluated for every (character, column): what happens to the column,
+    # and whether the character is consumed as indentation — the shape of the if/elif chain is irrelevant
+    from ..pyflow import stmt_paths
+    import copy
+    CH = "state.line[state.pos]"
+
+    def subst(text: str) -> ast.expr:
+        e = ast.parse(text.replace(CH, "_ch"), mode="eval").body
+        return e
+
+    try:
+        paths = stmt_paths(loop.body)
+    except AnalysisError as e:
+        raise AnalysisError(f"indentation measuring loop is not straight-line decision code: {e}")
+
+    def step(ch: str, col: int):
+        """(new column, consumed?) for one character, or None if no path applies."""
+        for pth in paths:
+            env = {"_ch": ch, "column": col}
+            ok = True
+            for x in pth:
+                if x[0] == "cond":
+                    try:
+                        if bool(constfold.fold_expr(subst(x[1]), env)) != x[2]:
+                            ok = False
+                            break
+                    except Exception as e:
+                        raise AnalysisError(f"indentation test `{x[1]}` not evaluable: {e}")
+            if not ok:
+                continue
+            advanced = False
+            for x in pth:
+                if x[0] != "do":
+                    continue
+                st = ast.parse(x[1]).body[0]
+                tgt = norm_stmt(st.targets[0] if isinstance(st, ast.Assign) else st.target) if isinstance(st, (ast.Assign, ast.AugAssign)) else ""
+                if tgt == "column":
+                    if isinstance(st, ast.AugAssign):
+                        val = constfold.fold_expr(subst(norm_stmt(st.value)), env)
+                        if not isinstance(st.op, ast.Add):
+                            raise AnalysisError(f"unsupported column update `{x[1]}`")
+                        env["column"] = env["column"] + val
+                    else:
+                        env["column"] = constfold.fold_expr(subst(norm_stmt(st.value)), env)
+                elif tgt == "state.pos":
+                    advanced = True
+            return env["column"], (advanced and pth[-1][1] != "break")
+        return None
+
     ref = {" ": lambda c: c + 1, "\t": lambda c: (c // 8 + 1) * 8, "\f": lambda c: 0}
     for ch, fn in ref.items():
         chk.count("K4-indentation")
         key = f"column-after-{ch!r}"
-        st = updates.get(ch)
-        if st is None:
-            chk.fail("K4-indentation", key, f.where, f"no column update for {ch!r} in the indentation measure")
-            continue
         bad = None
         for c in range(64):
-            if isinstance(st, ast.AugAssign) and isinstance(st.op, ast.Add):
-                expr = ast.BinOp(ast.Name("column", ast.Load()), ast.Add(), st.value)
-            elif isinstance(st, ast.Assign):
-                expr = st.value
-            else:
-                raise AnalysisError("unsupported column update")
-            ast.fix_missing_locations(expr)
-            got = constfold.fold_expr(expr, {"column": c})
-            if got != fn(c):
-                bad = (c, got, fn(c))
+            r = step(ch, c)
+            if r is None or not r[1] or r[0] != fn(c):
+                bad = (c, r, fn(c))
                 break
-        chk.require(bad is None, "K4-indentation", key, f"{f.rel}:{st.lineno}",
-                    f"after {ch!r} at column {bad[0]} the measure gives {bad[1]}, CPython gives {bad[2]} "
-                    f"(`{norm_stmt(st)}`)" if bad else "")
-    # form feed / tab / space are the only indentation characters
+        chk.require(bad is None, "K4-indentation", key, f.where,
+                    f"after {ch!r} at column {bad[0]} the measure gives {bad[1]} (column, consumed), CPython gives column {bad[2]} and "
+                    f"goes on" if bad else "")
+    # form feed / tab / space are the only indentation characters: anything else ends the measure without changing the column
     chk.count("K4-indentation")
-    chk.require(set(updates) == {" ", "\t", "\f"}, "K4-indentation", "indent-characters", f.where,
-                f"indentation characters are {sorted(updates)}; CPython measures space, tab and form feed")
+    others = []
+    for ch in ("x", "#", "\n", "\r", "\v", "\xa0", "_", "0"):
+        r = step(ch, 5)
+        if r is None or r[1] or r[0] != 5:
+            others.append((ch, r))
+    chk.require(not others, "K4-indentation", "indent-characters", f.where,
+                f"only space, tab and form feed are indentation; the measure also consumes or counts {others[:3]}")
 
 
 def rule_k5(chk: Check, F, ix: Index):
@@ -373,6 +425,8 @@ def run(chk: Check):
     # the wrapper's token filter decides which NEWLINE/NL/COMMENT tokens the grammar sees (CPython's NL vs NEWLINE distinction)
     from .c01 import rule_is_blank
     rule_is_blank(chk, "K7-token-filter")
+    from .c08 import rule_l5
+    rule_l5(chk, ix)
     chk.floor("K1-sublanguage", 3)
     chk.floor("K1-string-body", 5)
     chk.floor("K3-non-interference", 10)
